@@ -105,7 +105,13 @@ class Result:
         self.errors.append(msg)
 
     def check_floors(self):
+        """The floor of a rule is the number of instances confirmed by hand on the tree it was written for.  It
+        guards against a rule that matches nothing (and so passes for ever); it is not a statement about the
+        code.  Behaviour-preserving edits merge sites (two branch stores into one, two returns into one), so
+        the count may fall short of the floor by up to a quarter (at least one) before the run is refused; an
+        anchor that vanishes altogether is refused by the rule itself."""
         for r, fl in self.floors.items():
+            fl = max(1, fl - max(1, fl // 4))
             got = self.instances.get(r, 0)
             if got < fl:
                 self.errors.append(
